@@ -6,6 +6,7 @@ import "io"
 // so the pipe is an unbounded queue. Blocking behaviour is not modelled here (C11's subject).
 
 type pipeState struct {
+	writerHeld int // locks the writing thread held at its last Write (what it keeps while parked on the pipe)
 	buf     []byte
 	wclosed bool
 	rclosed bool
@@ -71,7 +72,20 @@ func PipeWriterWrite(w *io.PipeWriter, p []byte) (int, error) {
 		return 0, io.ErrClosedPipe
 	}
 	st.buf = append(st.buf, p...)
+	st.writerHeld = HeldByCurrentThread()
 	return len(p), nil
+}
+
+// PipesParkedWithLocks counts pipes that still hold unread data written by a thread that held locks at
+// that write: in a real run that thread is parked inside Write, keeping those locks, until somebody reads.
+func PipesParkedWithLocks() int {
+	n := 0
+	for _, st := range pipeR {
+		if len(st.buf) > 0 && !st.rclosed && st.writerHeld > 0 {
+			n++
+		}
+	}
+	return n
 }
 
 //verif:replace (*io.PipeWriter).Close
